@@ -308,6 +308,9 @@ pub fn run_capi(spec: &RunSpec, use_run: bool) -> Outcome {
                         for rp in needed {
                             match spec.modules.get(&rp) {
                                 Some(src) => {
+                                    if spec.stub_then_real {
+                                        let _ = tsrun_provide_module(ctx, cs(&rp).as_ptr(), cs(crate::host::STUB_MODULE).as_ptr());
+                                    }
                                     let pr = tsrun_provide_module(ctx, cs(&rp).as_ptr(), cs(src).as_ptr());
                                     if !pr.ok {
                                         let msg = read_cstr(pr.error).and_then(|x| x.ok()).unwrap_or_default();
